@@ -58,12 +58,13 @@ def replaceAll (pairs : List (List Char × List Char)) (s : List Char) : List Ch
   replaceFrom pairs 0 s
 
 /-- `bufio.Reader.ReadString('\n')` chunks: every line keeps its terminator -/
-def splitLines (s : List Char) : List (List Char) :=
-  go s []
-where
-  go : List Char → List Char → List (List Char)
-  | [], cur => if cur.isEmpty then [] else [cur.reverse]
-  | c :: cs, cur => if c = '\n' then (c :: cur).reverse :: go cs [] else go cs (c :: cur)
+def splitLines : List Char → List (List Char)
+  | [] => []
+  | c :: cs =>
+    if c = '\n' then ['\n'] :: splitLines cs
+    else match splitLines cs with
+      | l :: ls => (c :: l) :: ls
+      | [] => [[c]]
 
 /-- Encoder.filter: the replacer applied to each line of the indented document -/
 def filterDoc (pairs : List (List Char × List Char)) (doc : List Char) : List Char :=
